@@ -1,12 +1,17 @@
 //! WMO seed files for C05 ("parsers are total").
 //!
-//! Every seed starts from bytes produced by the crate's own `WmoWriter`.  The writer's output is
-//! not a complete WMO file (see the notes on `split_root` / `split_group`): it mis-sizes some
-//! chunks, writes a 60-byte MOHD and a 36-byte MOGP header, and never emits MFOG, MCVP, MOPY,
-//! MOLR, MOBR or second MOTV/MOCV sets.  So for most seeds the writer's chunk stream is split
-//! back into chunks (correcting for the known size defects), the two headers are padded to their
-//! on-disk size, and the chunks no writer path produces are hand-emitted from /repo/docs
-//! (docs/src/formats/graphics/wmo.md) and the struct definitions in wow-wmo/src/chunks.rs.
+//! Every seed starts from bytes produced by the crate's own `WmoWriter`.  The writer of the /repo
+//! snapshot did not produce complete WMO files: it mis-sized MOMT and MLIQ, wrote a 60-byte MOHD
+//! and a 36-byte MOGP header; /repo is being corrected while this harness is built.  Therefore
+//! every REPAIR here is conditional on the defect being detected in the writer's bytes (see
+//! `split_stream`, `split_root`, `split_group`, `pad_mohd`, `mogp_header`, `complete_group`): a
+//! corrected writer's chunk is passed through untouched, a defective one is repaired, and the
+//! self test builds every seed both from the writer's bytes as they are and from the same bytes
+//! rewritten into the snapshot writer's layout (`degrade_root` / `degrade_group`), so a writer fix
+//! can never silently remove a seed.  Independently of repairs, the chunks no writer path
+//! produces (MFOG, MCVP, MOPY, MOLR, MOBR, further MOTV/MOCV sets, MOSB below Wotlk, and the
+//! later-expansion chunks) are hand-emitted from /repo/docs (docs/src/formats/graphics/wmo.md) and
+//! the struct definitions in wow-wmo/src/chunks.rs.
 //! Two seeds (`*_writer_verbatim`) are the writer's bytes with no post-processing at all.
 //!
 //! Deterministic: no randomness, no clock, no hash-map iteration.
@@ -46,17 +51,20 @@ struct Ck {
     id: [u8; 4],
     raw_magic: bool,
     data: Vec<u8>,
+    /// set by `split_stream` when the chunk's size field did not lead to the next chunk header and
+    /// one of the alternative lengths did (i.e. a writer size defect was detected and corrected)
+    resized: bool,
 }
 
 fn ck(name: &str, data: Vec<u8>) -> Ck {
     let b = name.as_bytes();
-    Ck { id: [b[0], b[1], b[2], b[3]], raw_magic: false, data }
+    Ck { id: [b[0], b[1], b[2], b[3]], raw_magic: false, data, resized: false }
 }
 
 /// chunk whose 4 magic bytes are given exactly as they are stored in the file
 fn ck_disk(magic: &str, data: Vec<u8>) -> Ck {
     let b = magic.as_bytes();
-    Ck { id: [b[0], b[1], b[2], b[3]], raw_magic: true, data }
+    Ck { id: [b[0], b[1], b[2], b[3]], raw_magic: true, data, resized: false }
 }
 
 fn emit(out: &mut Vec<u8>, c: &Ck) {
@@ -92,30 +100,60 @@ fn rd_u32(b: &[u8], at: usize) -> u32 {
     u32::from_le_bytes([b[at], b[at + 1], b[at + 2], b[at + 3]])
 }
 
-/// Split a flat chunk stream.  `true_len(name, claimed_size, chunks_so_far)` gives the number of
-/// payload bytes the writer really wrote for a chunk (differs from the size field for the chunks
-/// whose size the writer gets wrong).
-fn split_stream(bytes: &[u8], true_len: &dyn Fn(&[u8; 4], usize, &[Ck]) -> usize) -> Result<Vec<Ck>, String> {
-    let mut out: Vec<Ck> = Vec::new();
-    let mut p = 0usize;
-    while p < bytes.len() {
+/// Split a flat chunk stream into chunks.  Every repair in this module is conditional on a defect
+/// being *detected* in the writer's bytes, so that the seeds come out valid with the defective
+/// writer and with a corrected one: the size field of each chunk is believed first; only if the
+/// bytes behind it do not continue as a well-formed chunk stream up to the exact end of the
+/// buffer are the alternative lengths from `alt_len(name, claimed, chunks_so_far)` tried (they
+/// describe the known writer size defects).  A chunk split with an alternative length is marked
+/// `resized`.
+fn split_stream(bytes: &[u8], alt_len: &dyn Fn(&[u8; 4], usize, &[Ck]) -> Vec<usize>) -> Result<Vec<Ck>, String> {
+    fn rec(bytes: &[u8], p: usize, out: &mut Vec<Ck>, alt_len: &dyn Fn(&[u8; 4], usize, &[Ck]) -> Vec<usize>, deepest: &mut (usize, String)) -> bool {
+        if p == bytes.len() {
+            return true;
+        }
+        fn fail(deepest: &mut (usize, String), at: usize, why: String) -> bool {
+            if at >= deepest.0 {
+                *deepest = (at, why);
+            }
+            false
+        }
         if p + 8 > bytes.len() {
-            return Err(format!("dangling {} bytes at {}", bytes.len() - p, p));
+            return fail(deepest, p, format!("dangling {} bytes at {}", bytes.len() - p, p));
         }
         let mut id = [bytes[p], bytes[p + 1], bytes[p + 2], bytes[p + 3]];
         id.reverse();
         if !id.iter().all(|b| b.is_ascii_uppercase() || b.is_ascii_digit()) {
-            return Err(format!("non-magic bytes {:?} at {}", id, p));
+            return fail(deepest, p, format!("non-magic bytes {:?} at {}", id, p));
         }
         let claimed = rd_u32(bytes, p + 4) as usize;
-        let n = true_len(&id, claimed, &out);
-        if p + 8 + n > bytes.len() {
-            return Err(format!("chunk {} at {} overruns ({} bytes)", String::from_utf8_lossy(&id), p, n));
+        let mut cands = vec![claimed];
+        for a in alt_len(&id, claimed, out) {
+            if !cands.contains(&a) {
+                cands.push(a);
+            }
         }
-        out.push(Ck { id, raw_magic: false, data: bytes[p + 8..p + 8 + n].to_vec() });
-        p += 8 + n;
+        for (k, n) in cands.into_iter().enumerate() {
+            if p + 8 + n > bytes.len() {
+                fail(deepest, p, format!("chunk {} at {} overruns ({} bytes)", String::from_utf8_lossy(&id), p, n));
+                continue;
+            }
+            let keep = out.len();
+            out.push(Ck { id, raw_magic: false, data: bytes[p + 8..p + 8 + n].to_vec(), resized: k > 0 });
+            if rec(bytes, p + 8 + n, out, alt_len, deepest) {
+                return true;
+            }
+            out.truncate(keep);
+        }
+        false
     }
-    Ok(out)
+    let mut out = Vec::new();
+    let mut deepest = (0usize, String::new());
+    if rec(bytes, 0, &mut out, alt_len, &mut deepest) {
+        Ok(out)
+    } else {
+        Err(deepest.1)
+    }
 }
 
 // ------------------------------------------------------------------ model helpers
@@ -306,23 +344,24 @@ fn write_root(x: &LegacyRoot, v: WmoVersion) -> Result<Vec<u8>, String> {
     }
 }
 
-/// Writer defect handled here: for targets below MoP `write_materials` sets the MOMT size field to
-/// 40 bytes per material but writes 64 bytes per material, so a reader walking the chunk stream
-/// lands inside the material data.  The true length is taken from MOHD.n_materials.
+/// Writer defect detected here (snapshot writer; corrected later in /repo): for targets below MoP
+/// `write_materials` set the MOMT size field to 40 bytes per material but wrote 64 bytes per
+/// material, so a reader walking the chunk stream landed inside the material data.  If (and only
+/// if) the claimed size does not lead to the next chunk, MOHD.n_materials * 64 is tried.
 fn split_root(bytes: &[u8]) -> Result<Vec<Ck>, String> {
-    split_stream(bytes, &|id, claimed, so_far| {
+    split_stream(bytes, &|id, _claimed, so_far| {
         if id == b"MOMT" {
             let n = so_far.iter().find(|c| &c.id == b"MOHD").map(|c| rd_u32(&c.data, 0) as usize).unwrap_or(0);
-            n * 64
+            vec![n * 64]
         } else {
-            claimed
+            vec![]
         }
     })
 }
 
-/// MOHD is 64 bytes on disk (docs; root_parser::Mohd); the writer emits 60 (no `flags: u16,
-/// num_lod: u16` tail; it puts its 32-bit flags where wmo_id lives).  Pad to 64, copying the low
-/// flag bits to the on-disk position.
+/// MOHD is 64 bytes on disk (docs; root_parser::Mohd); the snapshot writer emitted 60 (no `flags:
+/// u16, num_lod: u16` tail; it put its 32-bit flags where wmo_id lives).  Only a 60-byte MOHD is
+/// touched: padded to 64, copying the low flag bits to the on-disk position.
 fn pad_mohd(cs: &mut [Ck]) {
     if let Some(i) = pos(cs, "MOHD") {
         let d = &mut cs[i].data;
@@ -528,25 +567,36 @@ fn write_group(g: &LegacyGroup, v: WmoVersion) -> Result<Vec<u8>, String> {
     }
 }
 
-const WRITER_MOGP_HEADER: usize = 36;
+const SHORT_MOGP_HEADER: usize = 36;
 const MOGP_HEADER: usize = 68;
 
-/// Writer defects handled here:
-///  * `write_group` emits a 36-byte group header (name_offset, flags, bbox, u16 0, u16 group_index);
-///    the on-disk header (docs; group_parser::MogpHeader) is 68 bytes;
-///  * `write_liquid` claims `32 + vertices + tiles` for MLIQ but writes a 40-byte header.
-/// Returns (36 header bytes, sub-chunks).
+/// Writer defects detected here (snapshot writer; corrected later in /repo):
+///  * `write_group` emitted a 36-byte group header (name_offset, flags, bbox, u16 0, u16
+///    group_index); the on-disk header (docs; group_parser::MogpHeader) is 68 bytes.  The header
+///    length is whichever of 68 / 36 is followed by a well-formed sub-chunk stream (68 tried first);
+///  * `write_liquid` claimed `32 + vertices + tiles` for MLIQ but wrote a 40-byte header; `claimed
+///    + 8` is tried only when the claimed size does not lead to the next sub-chunk.
+/// Returns (header bytes: 68 or 36, sub-chunks).
 fn split_group(bytes: &[u8]) -> Result<(Vec<u8>, Vec<Ck>), String> {
-    if bytes.len() < 12 + 8 + WRITER_MOGP_HEADER || &bytes[0..4] != b"REVM" || &bytes[12..16] != b"PGOM" {
+    if bytes.len() < 20 || &bytes[0..4] != b"REVM" || &bytes[12..16] != b"PGOM" {
         return Err("writer group output does not start with MVER, MOGP".into());
     }
     let mogp_size = rd_u32(bytes, 16) as usize;
     if 20 + mogp_size != bytes.len() {
         return Err(format!("MOGP size {} does not cover the rest of the file ({})", mogp_size, bytes.len() - 20));
     }
-    let hdr = bytes[20..20 + WRITER_MOGP_HEADER].to_vec();
-    let subs = split_stream(&bytes[20 + WRITER_MOGP_HEADER..], &|id, claimed, _| if id == b"MLIQ" { claimed + 8 } else { claimed })?;
-    Ok((hdr, subs))
+    let mut why = Vec::new();
+    for h in [MOGP_HEADER, SHORT_MOGP_HEADER] {
+        if mogp_size < h {
+            why.push(format!("MOGP payload shorter than a {h}-byte header"));
+            continue;
+        }
+        match split_stream(&bytes[20 + h..], &|id, claimed, _| if id == b"MLIQ" { vec![claimed + 8] } else { vec![] }) {
+            Ok(subs) => return Ok((bytes[20..20 + h].to_vec(), subs)),
+            Err(e) => why.push(format!("with a {h}-byte header: {e}")),
+        }
+    }
+    Err(format!("cannot locate the MOGP sub-chunks ({})", why.join("; ")))
 }
 
 struct GroupExtras {
@@ -562,25 +612,48 @@ struct GroupExtras {
     extra: Vec<Ck>,
 }
 
-/// on-disk 68-byte MOGP header from the writer's 36 bytes
+/// On-disk 68-byte MOGP header.  A 36-byte writer header is widened (its name offset, flags and
+/// bounding box are kept).  A 68-byte writer header is kept as written, except that the fields the
+/// writer has no source for in `WmoGroupHeader` and therefore writes as zero (descriptive name,
+/// portal range, batch counts, fog ids, liquid, area id, flags2, split-group links) are filled in
+/// *where they are zero*, so that the rich seeds do not carry 32 zero bytes there.
 fn mogp_header(w: &[u8], x: &GroupExtras, n_batches: u16) -> Vec<u8> {
+    let mut fill = Vec::new(); // the values for bytes 36..68 (and 4..8)
+    u16le(&mut fill, 0); // portal_start
+    u16le(&mut fill, 2); // portal_count
+    u16le(&mut fill, 0); // trans batches
+    u16le(&mut fill, n_batches.min(1)); // int batches
+    u16le(&mut fill, n_batches.saturating_sub(1)); // ext batches
+    u16le(&mut fill, 0);
+    fill.extend_from_slice(&[0, 1, 0, 0]); // fog ids
+    u32le(&mut fill, 5); // group liquid
+    u32le(&mut fill, 0x0001_86A1); // unique id (WMOAreaTable)
+    u32le(&mut fill, x.flags2);
+    i16le(&mut fill, -1);
+    i16le(&mut fill, -1);
     let mut o = Vec::new();
-    o.extend_from_slice(&w[0..4]); // group name offset
-    u32le(&mut o, 24); // descriptive name offset
-    o.extend_from_slice(&w[4..8]); // flags
-    o.extend_from_slice(&w[8..32]); // bounding box
-    u16le(&mut o, 0); // portal_start
-    u16le(&mut o, 2); // portal_count
-    u16le(&mut o, 0); // trans batches
-    u16le(&mut o, n_batches.min(1)); // int batches
-    u16le(&mut o, n_batches.saturating_sub(1)); // ext batches
-    u16le(&mut o, 0);
-    o.extend_from_slice(&[0, 1, 0, 0]); // fog ids
-    u32le(&mut o, 5); // group liquid
-    u32le(&mut o, 0x0001_86A0 + u16::from_le_bytes([w[34], w[35]]) as u32); // unique id
-    u32le(&mut o, x.flags2);
-    i16le(&mut o, -1);
-    i16le(&mut o, -1);
+    if w.len() == SHORT_MOGP_HEADER {
+        o.extend_from_slice(&w[0..4]); // group name offset
+        u32le(&mut o, 24); // descriptive name offset
+        o.extend_from_slice(&w[4..8]); // flags
+        o.extend_from_slice(&w[8..32]); // bounding box
+        o.extend_from_slice(&fill);
+    } else {
+        o.extend_from_slice(w);
+        if n_batches > 0 {
+            // rich seeds only; the minimal group stays exactly as written
+            if o[4..8] == [0, 0, 0, 0] {
+                o[4..8].copy_from_slice(&24u32.to_le_bytes());
+            }
+            let mut at = 36;
+            for width in [2usize, 2, 2, 2, 2, 2, 4, 4, 4, 4, 2, 2] {
+                if o[at..at + width].iter().all(|b| *b == 0) {
+                    o[at..at + width].copy_from_slice(&fill[at - 36..at - 36 + width]);
+                }
+                at += width;
+            }
+        }
+    }
     debug_assert_eq!(o.len(), MOGP_HEADER);
     o
 }
@@ -613,7 +686,9 @@ fn complete_group(raw: &[u8], x: GroupExtras) -> Result<Vec<u8>, String> {
     let n_tris = get("MOVI").map(|c| c.data.len() / 6).unwrap_or(0);
     let n_verts = get("MOVT").map(|c| c.data.len() / 12).unwrap_or(0);
     let n_batches = get("MOBA").map(|c| c.data.len() / 24).unwrap_or(0) as u16;
-    let had_liquid = get("MLIQ").is_some();
+    // the writer's MLIQ is kept when its size field is right; it is replaced by a doc-layout one
+    // only when the size defect was detected (the chunk then does not even describe its own extent)
+    let mliq = get("MLIQ").map(|c| if c.resized { ck("MLIQ", mliq_payload(3, 2)) } else { c });
     let rich = n_tris > 0;
 
     let mut cs: Vec<Ck> = Vec::new();
@@ -667,7 +742,6 @@ fn complete_group(raw: &[u8], x: GroupExtras) -> Result<Vec<u8>, String> {
         }
         tail.push(ck("MOCV", d));
     }
-    let mliq = if had_liquid { Some(ck("MLIQ", mliq_payload(3, 2))) } else { None };
     if x.mliq_canonical {
         cs.extend(mliq);
         cs.extend(x.extra.iter().cloned());
@@ -785,8 +859,83 @@ struct Built {
     tolerated: &'static [&'static str],
 }
 
+/// emit with an explicit (possibly wrong) size field
+fn emit_claiming(out: &mut Vec<u8>, c: &Ck, claimed: usize) {
+    let mut m = c.id;
+    m.reverse();
+    out.extend_from_slice(&m);
+    u32le(out, claimed as u32);
+    out.extend_from_slice(&c.data);
+}
+
+/// Rewrite a root written by a corrected writer into what the snapshot writer produced: 60-byte
+/// MOHD (flags as u32 at +32, no tail) and a MOMT size field of 40 per material below MoP.  Bytes
+/// that already have that shape are left alone.
+fn degrade_root(raw: &[u8], ver: WmoVersion) -> Result<Vec<u8>, String> {
+    let cs = split_root(raw)?;
+    let mut out = Vec::new();
+    for c in &cs {
+        let mut c = c.clone();
+        if &c.id == b"MOHD" && c.data.len() == 64 {
+            let fl = u16::from_le_bytes([c.data[60], c.data[61]]) as u32;
+            c.data.truncate(60);
+            c.data[32..36].copy_from_slice(&fl.to_le_bytes());
+        }
+        let mut claimed = c.data.len();
+        if &c.id == b"MOMT" && ver < WmoVersion::Mop {
+            claimed = c.data.len() / 64 * 40;
+        }
+        emit_claiming(&mut out, &c, claimed);
+    }
+    Ok(out)
+}
+
+/// Same for a group: 36-byte MOGP header, MLIQ size field 8 short.
+fn degrade_group(raw: &[u8]) -> Result<Vec<u8>, String> {
+    let (hdr, subs) = split_group(raw)?;
+    let mut body = Vec::new();
+    if hdr.len() == MOGP_HEADER {
+        body.extend_from_slice(&hdr[0..4]);
+        body.extend_from_slice(&hdr[8..36]);
+        u16le(&mut body, 0);
+        u16le(&mut body, 1);
+    } else {
+        body.extend_from_slice(&hdr);
+    }
+    for c in &subs {
+        let claimed = if &c.id == b"MLIQ" && !c.resized { c.data.len() - 8 } else { c.data.len() };
+        emit_claiming(&mut body, c, claimed);
+    }
+    let mut out = raw[0..12].to_vec();
+    emit(&mut out, &ck("MOGP", body));
+    Ok(out)
+}
+
 fn build() -> Vec<Built> {
+    build_with(false)
+}
+
+/// `old_layout`: first rewrite the writer's bytes into the layout of the snapshot (defective)
+/// writer, see `degrade_root` / `degrade_group`; used by the self test to prove that every seed is
+/// also built, and valid, from that writer's output.
+fn build_with(old_layout: bool) -> Vec<Built> {
     let mut v: Vec<Built> = Vec::new();
+    let write_root = |x: &LegacyRoot, ver: WmoVersion| -> Result<Vec<u8>, String> {
+        let raw = write_root(x, ver)?;
+        if old_layout {
+            degrade_root(&raw, ver)
+        } else {
+            Ok(raw)
+        }
+    };
+    let write_group = |g: &LegacyGroup, ver: WmoVersion| -> Result<Vec<u8>, String> {
+        let raw = write_group(g, ver)?;
+        if old_layout {
+            degrade_group(&raw)
+        } else {
+            Ok(raw)
+        }
+    };
 
     // 1. rich roots, one per version
     for (ver, tag) in VERSIONS {
@@ -1038,35 +1187,61 @@ fn empty_sections(fmt: &str, name: &str, bytes: &[u8]) -> Result<Vec<&'static st
 /// The older group parser is a stub that returns this error for every input.
 const LEGACY_GROUP_STUB: &str = "Legacy parser not yet migrated";
 
+const EXPECTED_NAMES: [&str; 17] = [
+    "root_classic_rich",
+    "root_tbc_rich",
+    "root_wotlk_rich",
+    "root_cata_rich",
+    "root_mop_rich",
+    "root_min",
+    "root_mop_writer_verbatim",
+    "root_wotlk_newchunks",
+    "root_mop_altmagic",
+    "group_classic_rich",
+    "group_tbc_rich",
+    "group_wotlk_rich",
+    "group_mop_rich",
+    "group_min",
+    "group_wotlk_writer_verbatim",
+    "group_wotlk_newchunks",
+    "group_mop_newchunks",
+];
+
 pub fn selftest() -> Result<(), String> {
     let mut errs: Vec<String> = Vec::new();
-    let built = build();
-    if built.len() < 10 {
-        errs.push(format!("only {} seeds", built.len()));
-    }
-    for b in &built {
-        let bytes = match &b.bytes {
-            Ok(x) => x,
-            Err(e) => {
-                errs.push(format!("{}: not built: {e}", b.name));
-                continue;
+    for (old_layout, tag) in [(false, ""), (true, " [from snapshot-writer layout]")] {
+        let built = build_with(old_layout);
+        let names: Vec<&str> = built.iter().map(|b| b.name.as_str()).collect();
+        if names != EXPECTED_NAMES {
+            errs.push(format!("seed names{tag}: {:?}", names));
+        }
+        for b in &built {
+            let bytes = match &b.bytes {
+                Ok(x) => x,
+                Err(e) => {
+                    errs.push(format!("{}{tag}: not built: {e}", b.name));
+                    continue;
+                }
+            };
+            for (ep, r) in run_entry_points(b.fmt, bytes) {
+                if let Err(e) = r {
+                    let stub = ep == "WmoGroupParser::parse_group" && e.contains(LEGACY_GROUP_STUB);
+                    if !stub && !b.tolerated.contains(&ep) {
+                        errs.push(format!("{}{tag}: {ep}: {e}", b.name));
+                    }
+                }
             }
-        };
-        for (ep, r) in run_entry_points(b.fmt, bytes) {
-            if let Err(e) = r {
-                let stub = ep == "WmoGroupParser::parse_group" && e.contains(LEGACY_GROUP_STUB);
-                if !stub && !b.tolerated.contains(&ep) {
-                    errs.push(format!("{}: {ep}: {e}", b.name));
+            if b.expect_full {
+                match empty_sections(b.fmt, &b.name, bytes) {
+                    Ok(e) if e.is_empty() => {}
+                    Ok(e) => errs.push(format!("{}{tag}: sections empty after parse_wmo: {}", b.name, e.join(","))),
+                    Err(e) => errs.push(format!("{}{tag}: {e}", b.name)),
                 }
             }
         }
-        if b.expect_full {
-            match empty_sections(b.fmt, &b.name, bytes) {
-                Ok(e) if e.is_empty() => {}
-                Ok(e) => errs.push(format!("{}: sections empty after parse_wmo: {}", b.name, e.join(","))),
-                Err(e) => errs.push(format!("{}: {e}", b.name)),
-            }
-        }
+    }
+    if seeds().len() != EXPECTED_NAMES.len() {
+        errs.push(format!("seeds() returns {} of {} seeds", seeds().len(), EXPECTED_NAMES.len()));
     }
     // determinism
     let a = seeds();
@@ -1114,6 +1289,58 @@ pub fn report() -> String {
         ("wmo_group", "probe: minimal group, writer bytes untouched", write_group(&min_group(), WmoVersion::Wotlk)),
         ("wmo_group", "probe: rich group, Wod target (LiquidV2), writer bytes untouched", write_group(&rich_group(), WmoVersion::Wod)),
     ];
+    // which writer defects are detected (= which conditional repairs fire) on the writer's bytes as
+    // they are today, and on the same bytes rewritten into the snapshot writer's layout
+    let root_defects = |raw: &[u8]| -> String {
+        match split_root(raw) {
+            Err(e) => format!("unsplittable: {e}"),
+            Ok(cs) => {
+                let mut d: Vec<String> = Vec::new();
+                if let Some(i) = pos(&cs, "MOHD") {
+                    if cs[i].data.len() != 64 {
+                        d.push(format!("MOHD is {} bytes (padded to 64)", cs[i].data.len()));
+                    }
+                }
+                if let Some(i) = pos(&cs, "MOMT") {
+                    if cs[i].resized {
+                        d.push("MOMT size field wrong (re-sized to 64/material)".into());
+                    }
+                }
+                if pos(&cs, "MOSB").is_none() && pos(&cs, "MOGI").is_some() {
+                    d.push("no MOSB (inserted)".into());
+                }
+                if d.is_empty() { "none".into() } else { d.join("; ") }
+            }
+        }
+    };
+    let group_defects = |raw: &[u8]| -> String {
+        match split_group(raw) {
+            Err(e) => format!("unsplittable: {e}"),
+            Ok((h, subs)) => {
+                let mut d: Vec<String> = Vec::new();
+                if h.len() != MOGP_HEADER {
+                    d.push(format!("MOGP header is {} bytes (widened to 68)", h.len()));
+                }
+                if subs.iter().any(|c| &c.id == b"MLIQ" && c.resized) {
+                    d.push("MLIQ size field wrong (chunk replaced by a doc-layout one)".into());
+                }
+                if d.is_empty() { "none".into() } else { d.join("; ") }
+            }
+        }
+    };
+    for (ver, tag) in VERSIONS {
+        if let Ok(raw) = write_root(&rich_root(ver), ver) {
+            s.push_str(&format!("repairs needed, rich root {tag}: today's writer: {} | snapshot layout: {}\n", root_defects(&raw), degrade_root(&raw, ver).map(|r| root_defects(&r)).unwrap_or_else(|e| e)));
+        }
+    }
+    if let Ok(raw) = write_root(&min_root(WmoVersion::Wotlk), WmoVersion::Wotlk) {
+        s.push_str(&format!("repairs needed, min root: today's writer: {} | snapshot layout: {}\n", root_defects(&raw), degrade_root(&raw, WmoVersion::Wotlk).map(|r| root_defects(&r)).unwrap_or_else(|e| e)));
+    }
+    for (label, g) in [("rich group", rich_group()), ("min group", min_group())] {
+        if let Ok(raw) = write_group(&g, WmoVersion::Wotlk) {
+            s.push_str(&format!("repairs needed, {label}: today's writer: {} | snapshot layout: {}\n", group_defects(&raw), degrade_group(&raw).map(|r| group_defects(&r)).unwrap_or_else(|e| e)));
+        }
+    }
     // which of the later-expansion chunks in the *_newchunks seeds reach the parsed structures
     for b in build() {
         if let (true, Ok(bytes)) = (b.name.contains("newchunks"), &b.bytes) {
